@@ -58,21 +58,27 @@ def _gen_mat(rng, n, m, ploidy, phased):
             for ph in rng.sample(range(ploidy), dos[i][j]): mat[ph][i][j] = 1
     return mat
 
-def _gen_freq(rng, m, allow_bad=True):
+def _gen_freq(rng, m, est, allow_bad=True):
     k = rng.random()
     if k < 0.34: return None
     grid = lambda: rng.choice([rng.randint(1, 15) / 16.0, rng.randint(1, 63) / 64.0, 0.5, 0.25, 0.75])
-    ugly = lambda: rng.choice([0.1, 0.3, 1.0 / 3.0, 0.7, rng.uniform(0.02, 0.98)])
+    # "ugly": 20-bit dyadics (products exceed 53 bits, so the floats round: regime T) - cheap exact rationals for the model
+    # (Yang divides by p(1-p): every float result rounds anyway, so coarse grids keep the model's rationals small)
+    if est == "yang": ugly = (lambda: rng.randint(1, 1023) / 1024.0) if m <= 6 else grid
+    else: ugly = lambda: rng.randint(2 ** 14, 2 ** 20 - 2 ** 14) / float(2 ** 20)
+    classic = lambda: rng.choice([0.1, 0.3, 1.0 / 3.0, 0.7, rng.uniform(0.02, 0.98)])
     if k < 0.56:
         r = rng.random()
         if r < 0.45: return {"s": grid()}
-        if r < 0.75: return {"s": ugly()}
+        if r < 0.75: return {"s": rng.choice([ugly, classic])()}
         if r < 0.83: return {"s": rng.choice([0.0, 1.0])}
         if r < 0.90: return {"s": rng.choice([0, 1])}                       # Integral scalars are Real too
         return {"s": rng.choice([-0.25, 1.5, -1, 2, 1.0000000000000002])} if allow_bad else {"s": 0.5}
     r = rng.random()
     if r < 0.45: a = [grid() for _ in range(m)]
-    elif r < 0.75: a = [ugly() for _ in range(m)]
+    elif r < 0.75:
+        a = [ugly() for _ in range(m)]
+        if m and rng.random() < 0.5: a[rng.randrange(m)] = classic()
     elif r < 0.87:
         a = [grid() for _ in range(m)]
         for _ in range(rng.randint(1, max(1, m // 2))):
@@ -90,16 +96,19 @@ def _gen_wt(rng, m):
     k = rng.random()
     if k < 0.3: return None
     grid = lambda: rng.randint(0, 64) / 16.0
-    ugly = lambda: rng.choice([0.1, 1.0 / 3.0, 2.7, rng.uniform(0.0, 5.0)])
+    ugly = lambda: rng.randint(1, 2 ** 22) / float(2 ** 20)
+    classic = lambda: rng.choice([0.1, 1.0 / 3.0, 2.7, rng.uniform(0.0, 5.0)])
     if k < 0.5:
         r = rng.random()
         if r < 0.5: return {"s": grid()}
-        if r < 0.7: return {"s": ugly()}
+        if r < 0.7: return {"s": rng.choice([ugly, classic])()}
         if r < 0.8: return {"s": rng.choice([0, 1, 2, 0.0])}
         return {"s": rng.choice([-0.5, -1, -1e-9])}
     r = rng.random()
     if r < 0.5: a = [grid() for _ in range(m)]
-    elif r < 0.8: a = [ugly() for _ in range(m)]
+    elif r < 0.8:
+        a = [ugly() for _ in range(m)]
+        if m and rng.random() < 0.5: a[rng.randrange(m)] = classic()
     elif r < 0.88:
         a = [grid() for _ in range(m)]
         for _ in range(rng.randint(1, max(1, m // 2))):
@@ -115,7 +124,7 @@ def _one(rng, tier, est=None, n=None, m=None, ploidy=None, phased=None):
     est = est or rng.choice(EST)
     if phased is None: phased = rng.random() < 0.4
     if ploidy is None:
-        if est == "mol": ploidy = rng.choice([1, 2, 2, 2, 1, 2, 3 if phased else 4]) if rng.random() < 0.12 else rng.choice([1, 2, 2])
+        if est == "mol": ploidy = (3 if phased else 4) if rng.random() < 0.06 else rng.choice([1, 2, 2])
         else: ploidy = rng.choice([1, 2, 2, 2, 2, 4 if not phased else 3])
     if n is None:
         n = rng.choice([1, 2, 2, 3, 4, 4, 5, 6, 8, 8]) if rng.random() < 0.8 else rng.randint(1, 16 if big else 10)
@@ -130,7 +139,7 @@ def _one(rng, tier, est=None, n=None, m=None, ploidy=None, phased=None):
     grp = [rng.randint(0, 3) for _ in range(n)] if lab < 0.55 or lab > 0.93 else None
     case = {"est": est, "factory": rng.random() < 0.3, "kind": "phased" if phased else "unphased", "ploidy": ploidy, "mat": mat,
             "taxa": taxa, "grp": grp, "pref": None, "wt": None}
-    if est in ("vr", "yang", "gw"): case["pref"] = _gen_freq(rng, m)
+    if est in ("vr", "yang", "gw"): case["pref"] = _gen_freq(rng, m, est)
     if est == "gw": case["wt"] = _gen_wt(rng, m)
     r = rng.random()
     if r < 0.4: sel = rng.sample(range(n), n)
@@ -413,15 +422,15 @@ def emit_case(case, out):
             P.append("vec_agree %s %s (red_axis maxl %s %d G) && vec_agree %s %s (red_axis minl %s %d G) && qclose_l %s (red_axis meanl %s %d G)"
                      % (ex, L1(out["max_%s%d" % (t_, ax)], Q), f, ax, ex, L1(out["min_%s%d" % (t_, ax)], Q), f, ax, L1(out["mean_%s%d" % (t_, ax)], Q), f, ax))
         P.append("q_agree %s %s (max_inbreeding %s G)" % (ex, Q(out["maxinb_" + t_]), f))
-        P.append("inv_agree %s %s G" % (_optmat(out["inv_" + t_]), f))
-        P.append("mininb_agree %s %s G" % (_optq(out["mininb_" + t_]), f))
-    P.append("q_agree %s %s (max_all Coancestry G) && q_agree %s %s (max_inbreeding Coancestry G) && mininb_agree %s Coancestry G"
+        P.append("inv_agree %s %s G Hc" % (_optmat(out["inv_" + t_]), f))
+        P.append("mininb_agree %s %s G Hc" % (_optq(out["mininb_" + t_]), f))
+    P.append("q_agree %s %s (max_all Coancestry G) && q_agree %s %s (max_inbreeding Coancestry G) && mininb_agree %s Coancestry G Hc"
              % (ex, Q(out["max_default"]), ex, Q(out["maxinb_default"]), _optq(out["mininb_default"])))
     P.append("psd_agree %s (psd_model %s G) && psd_agree %s (psd_model (-1) G) && psd_agree %s (psd_model %s G)"
              % (_optb(out["psd"]), E.q(Fraction(2e-14)), _optb(out["psd_neg"]), _optb(out["psd_tol"]), E.q(Fraction(case["tol"]))))
     P.append(sub)
     lt, lg = E.opt(t, lambda l: L1(l, E.s)), E.opt(g, lambda l: L1(l, E.z))
-    return ("(match with_labels %s %s %s with ROk cm => let G := cm_mat cm in\n     " % (lt, lg, mdl)
+    return ("(match with_labels %s %s %s with ROk cm => let G := cm_mat cm in let Hc := inv_checked G in\n     " % (lt, lg, mdl)
             + "\n  && ".join(P) + "\n   | _ => false end)")
 
 # ------------------------------------------------------------------ independent predicate
